@@ -49,6 +49,10 @@ Definition add_rec (s : cst) (v : Z) : cst :=
 Definition read_line (s : cst) : cst :=
   {| c_glob := c_glob s; c_arr := c_arr s; c_out := c_out s; c_cancel := c_cancel s; c_rec := c_rec s;
      c_lines := c_lines s - 1; c_nr := c_nr s + 1; c_exit := c_exit s; c_closed := c_closed s; c_unmod := c_unmod s |}.
+(* nextfile: the only input is standard input, so abandoning the file ends the input *)
+Definition drop_input (s : cst) : cst :=
+  {| c_glob := c_glob s; c_arr := c_arr s; c_out := c_out s; c_cancel := c_cancel s; c_rec := c_rec s;
+     c_lines := 0; c_nr := c_nr s; c_exit := c_exit s; c_closed := c_closed s; c_unmod := c_unmod s |}.
 Definition set_exit (s : cst) (v : Z) : cst :=
   {| c_glob := c_glob s; c_arr := c_arr s; c_out := c_out s; c_cancel := c_cancel s; c_rec := c_rec s;
      c_lines := c_lines s; c_nr := c_nr s; c_exit := v; c_closed := c_closed s; c_unmod := c_unmod s |}.
@@ -214,7 +218,7 @@ Definition cio : ioprims Z cst Z :=
   {| io_next_line := fun s => if 0 <? c_lines s then (read_line s, EOk (Some (c_nr s + 1))) else (s, EOk None);
      io_set_record := fun s _ => s;
      io_print_line := fun s => (add_out s [c_nr s], EOk tt);
-     io_next_file := fun s => s;
+     io_next_file := drop_input;
      io_exit_status := c_exit;
      io_close_all := set_closed |}.
 
